@@ -402,15 +402,20 @@ func (t *TempoService) Search(ctx context.Context,
 	return res, nil
 }
 
+// decodeParentId decodes the parentId of a stored Zipkin span the way the writer did when it filled the
+// parent_id column (decodeHexStr): a short id is padded with zeros on the left, a long one is cut after
+// 16 digits.
 func decodeParentId(parentId []byte) ([]byte, error) {
-	if len(parentId) < 16 {
+	if len(parentId) == 0 {
 		return nil, nil
 	}
-	if len(parentId) > 16 {
-		return nil, fmt.Errorf("parent id is too big")
+	if len(parentId) < 16 {
+		padded := []byte("0000000000000000")
+		copy(padded[16-len(parentId):], parentId)
+		parentId = padded
 	}
 	res := make([]byte, 8)
-	_, err := hex.Decode(res, parentId)
+	_, err := hex.Decode(res, parentId[:16])
 	return res, err
 }
 
